@@ -12,25 +12,41 @@
 #include <stdlib.h>
 #include <errno.h>
 
+static bool is_hard_link(const tree_node_t *node)
+{
+	return S_ISLNK(node->mode) && (node->flags & FLAG_LINK_IS_HARD);
+}
+
+static tree_node_t *follow_link(fstree_t *fs, tree_node_t *node)
+{
+	if (node->flags & FLAG_LINK_RESOVED)
+		return node->data.target_node;
+
+	return fstree_get_node_by_path(fs, fs->root, node->data.target,
+				       false, false);
+}
+
 static int resolve_link(fstree_t *fs, tree_node_t *node)
 {
-	tree_node_t *start = node;
+	tree_node_t *start = node, *slow = node;
+	bool step = false;
 
-	for (;;) {
-		if (!S_ISLNK(node->mode) || !(node->flags & FLAG_LINK_IS_HARD))
-			break;
+	while (is_hard_link(node)) {
+		node = follow_link(fs, node);
+		if (node == NULL)
+			return -1;
 
-		if (node->flags & FLAG_LINK_RESOVED) {
-			node = node->data.target_node;
-		} else {
-			node = fstree_get_node_by_path(fs, fs->root,
-						       node->data.target,
-						       false, false);
-			if (node == NULL)
+		/* the chain may run into a loop that does not contain the
+		   node we started at: a second pointer follows at half the
+		   speed and is caught up with if there is one */
+		if (step) {
+			slow = follow_link(fs, slow);
+			if (slow == NULL)
 				return -1;
 		}
+		step = !step;
 
-		if (node == start) {
+		if (node == start || (node == slow && is_hard_link(node))) {
 			errno = EMLINK;
 			return -1;
 		}
